@@ -1454,6 +1454,18 @@ def warm_search(vs):
             if k < len(t2):
                 scs.append({"steps": [{"op": "new", "ctx": 0, "config": cfg}] + typ(t1, 0) + [{"op": "backspace", "ctx": 0}] * (len(t1) - k) + typ(t2[k:], 0)})
                 meta.append((t1, t2, "erased back to %r" % t2[:k]))
+    # the suggestion list switched off for a word in between (update_engine while idle, both ways): the scratch objects of the assembly are
+    # used by the list-less path too
+    off = dict(cfg, opts={"phonetic_suggestion": False})
+    for t1 in ("e", "?", "a", "(", "k", "ami"):
+        for mid in ("tumi", "ki", "a"):
+            if any(ch not in keys for ch in t1 + mid):
+                continue
+            scs.append({"steps": [{"op": "new", "ctx": 0, "config": cfg}] + typ(t1, 0) + [{"op": "commit", "ctx": 0, "index": 0}, {"op": "update", "ctx": 0, "config": off}] +
+                                 typ(mid, 0) + [{"op": "commit", "ctx": 0, "index": 0}, {"op": "update", "ctx": 0, "config": cfg}] + typ(t1, 0)})
+            meta.append((t1, t1, "committed, the list switched off, %r composed and committed, the list switched on again" % mid))
+            if t1 not in fresh:
+                fresh[t1] = run_replay([{"steps": [{"op": "new", "config": cfg}] + typ(t1, 0)}])[0]["results"][-1].get("suggestion")
     # a learned choice in between: the word is committed with another candidate, then typed again; the new context reads the same store
     learned = []
     for t in ("a", "k", "ami", "kal"):
@@ -1576,6 +1588,129 @@ def obl_order(check, conv_table, thorough=False, budget_s=None):
                            confirmers={"autocorrect_entry_is_first": autocorrect_search, "no_candidate_twice": duplicate_search,
                                        "dictionary_candidates_carry_their_distance": suffix_rank_search,
                                        "memo_entry_is_keyed_by_the_word": warm_search, "memo_entry_holds_direct_candidates_only": stacked_suffix_search}, budget_s=budget_s)
+
+
+# ------------------------------------------------------------------------- C07: the number a dictionary word is ranked by
+
+def make_dictionary_rank(shape):
+    """`Rank::new_suggestion(item, base)` from MIR, both strings symbolic; the edit-distance crate is an uninterpreted function that records
+    what it is asked. The candidate carries 10 x that function's answer for exactly (base, item)."""
+    la, lb = shape["item_len"], shape["base_len"]
+
+    def build(st, it):
+        prog = it.p
+        item = [st.sym_char("i%d" % i, 0x0980, 0x09FF) for i in range(la)]
+        base = [st.sym_char("b%d" % i, 0x0980, 0x09FF) for i in range(lb)]
+        asked = []
+
+        def edit_distance(it2, args, callee):
+            a, b = list(elems_of(args[0])), list(elems_of(args[1]))
+            d = st.sym_bv("ed%d" % len(asked), 64)
+            st.assume(z3.ULE(d, 25))
+            asked.append((a, b, d))
+            return d
+        it.env["overrides"] = {"edit_distance": edit_distance}
+        st.ctx = dict(item=item, base=base, asked=asked)
+        fn = prog.find_fn("Rank", "new_suggestion")
+
+        def run():
+            return it.call_function(fn, [SString(list(item)), Str(list(base))])
+        return run
+
+    def on_path(st, it, out):
+        prog = it.p
+        c = st.ctx
+        model = st.get_model()
+
+        def inputs(m):
+            return dict(item=model_string(m, c["item"]), base=model_string(m, c["base"]), edit_distance_asked=[[model_string(m, a), model_string(m, b), int(model_value(m, d))] for a, b, d in c["asked"]])
+
+        def pred(m):
+            if out[0] == "panic":
+                return dict(panic=out[1].message)
+            r = out[1]
+            return dict(rank=rank_json(prog, m, r))
+        if out[0] == "panic":
+            return [dict(kind="violation", clause="no_panic", inputs=inputs(model), predicted=pred(model))]
+        r = out[1]
+        V = prog.enums["Rank"]
+        ok = z3.BoolVal(False)
+        if isinstance(r, Agg) and r.variant == V["Other"] and len(c["asked"]) >= 1:
+            a, b, d = c["asked"][-1]
+            right_pair = z3.And(seq_eq(a, c["base"]) if len(a) == len(c["base"]) else z3.BoolVal(False), seq_eq(b, c["item"]) if len(b) == len(c["item"]) else z3.BoolVal(False))
+            num = r.fields[1]
+            ok = z3.And(right_pair, seq_eq(list(r.fields[0].elems), c["item"]) if len(r.fields[0].elems) == len(c["item"]) else z3.BoolVal(False),
+                        simp(bv(num, 8) == z3.Extract(7, 0, bv(d, 64) * 10)))
+        clauses = [("dictionary_word_is_ranked_by_its_edit_distance", ok), ("cover:ranked", True)]
+        return eval_clauses(st, clauses, lambda cn, m: dict(kind="violation", clause=cn, inputs=inputs(m), predicted=pred(m)))
+    return build, on_path
+
+
+def levenshtein(a, b):
+    prev = list(range(len(b) + 1))
+    for i, x in enumerate(a, 1):
+        cur = [i]
+        for j, y in enumerate(b, 1):
+            cur.append(min(prev[j] + 1, cur[j - 1] + 1, prev[j - 1] + (x != y)))
+        prev = cur
+    return prev[-1]
+
+
+def distance_search(vs):
+    """Native: words typed in the phonetic method; every dictionary candidate of the memo entry of the word carries 10 x the edit distance
+    (computed here, code point by code point) between the word's plain transliteration and the candidate."""
+    keys = char_keys()
+    data = bundled_data()
+    cfg = {"layout": "avro_phonetic", "database": REPO + "/data", "opts": {"phonetic_suggestion": True}}
+    words = ["kothao", "prosob", "ikonomiks", "ami", "kotha", "bhalo", "manush", "somoy", "prithibi", "shikkha", "bangla", "desh", "jibon", "kobita", "sondha", "nodi", "akash",
+             "batas", "bristi", "rod", "megh", "pakhi", "ful", "gach", "pata", "mati", "jol", "agun", "sagor", "pahar", "rasta", "bari", "ghor", "dorja", "janala", "chabi",
+             "boi", "khata", "kolom", "chithi", "khobor", "golpo", "gan", "sur", "chobi", "rong", "alo", "ondhokar", "sokal", "dupur", "bikal", "rat", "din", "mas", "bochor"]
+    words += [k for k in data["autocorrect"] if k.isalpha() and k.isascii() and 4 <= len(k) <= 9][:600]
+    words = [w for w in dict.fromkeys(words) if all(ch in keys for ch in w)]
+    scs = [{"steps": [{"op": "new", "config": cfg}] + [{"op": "key", "key": keys[ch], "sel": 0} for ch in w] + [{"op": "get_state"}] +
+                     [{"op": "okkhor", "text": w[:n]} for n in range(1, len(w) + 1)]} for w in words]
+    for w, sc, r in zip(words, scs, run_replay_parallel(scs, timeout=1800)):
+        rr = r["results"]
+        st_i = len(w) + 1
+        if any("panic" in x for x in rr) or "state" not in rr[st_i]:
+            continue
+        # every typed prefix has its memo entry: the dictionary candidates of each against the transliteration of that prefix
+        for n in range(1, len(w) + 1):
+            base = rr[st_i + n].get("text")
+            for kind, text, num in rr[st_i]["state"].get("cache", {}).get(w[:n], []):
+                if kind != 2 or base is None:
+                    continue
+                want = (10 * levenshtein(base, text)) & 0xFF
+                if num != want:
+                    return sc, rr[st_i], ("typed %r: the memo entry of %r (plain transliteration %r) holds the dictionary candidate %r ranked by %d; ten times its edit distance is %d" % (
+                        w, w[:n], base, text, num, want)), "a dictionary candidate is not ranked by its edit distance"
+    return None
+
+
+def obl_dictionary_rank(check, budget_s=None):
+    shapes = [dict(item_len=a, base_len=b) for a in (1, 2, 3) for b in (1, 2, 3)]
+    name = "dictionary_rank"
+    check.bounds[name] = dict(item="1-3 symbolic Bengali-block characters", base="1-3 symbolic Bengali-block characters", edit_distance="uninterpreted function (0..25) that records its arguments")
+    records, errors, summ = msym.run_shapes(check, name, shapes, make_dictionary_rank, budget_s=budget_s)
+    vio = [r for r in records if r["kind"] == "violation" and (getattr(check, "only_clauses", None) is None or r["clause"] in check.only_clauses)]
+    covers = set(r["name"] for r in records if r["kind"] == "cover")
+    if errors:
+        check.obligation(name, "mirsym", "inconclusive", "executor gave up: " + "; ".join(sorted(set(errors))[:3]))
+        return
+    if "cover:ranked" not in covers:
+        check.obligation(name, "mirsym", "inconclusive", "vacuity: no candidate was built")
+        return
+    if not vio:
+        check.obligation(name, "mirsym", "held", "%d paths; the candidate carries ten times the edit-distance function's answer for (base, word) on every path" % summ["paths"])
+        return
+    found = distance_search(vio)
+    if found is None:
+        check.obligation(name, "mirsym", "inconclusive", "counterexample not re-found natively: %s -> %s" % (json.dumps(vio[0]["inputs"], ensure_ascii=False)[:300], json.dumps(vio[0]["predicted"], ensure_ascii=False)[:200]))
+        return
+    sc, obs, what, role = found
+    check.stats["traces_validated"] += 1
+    st = check.finding(role, what, dict(scenario=sc, observed=obs, solver_counterexample=vio[0]["inputs"]))
+    check.obligation(name, "mirsym", st, "%d paths; %d counterexample models" % (summ["paths"], len(vio)))
 
 
 def join_concrete(base, sfx):
@@ -1871,6 +2006,8 @@ def obl_emoji(check, conv_table, thorough=False, budget_s=None):
     shapes += base_shapes([("", ""), ("\"", "\"")], [1], conv_table, **dict(kw, autocorrect=True, user_autocorrect=True, emoji_names=False, emoticons=False, preconsult_emoji=False))
     # names with a hyphen or an underscore inside (`t-rex`): the middle character of a three-character word ranges over them too
     shapes += base_shapes([("", "")], [3], conv_table, **dict(kw, inner_marks=True, emoticons=False, dict_max=0, fixed={"smart_quote": False, "include_english": False}))
+    # emoticons with a hyphen inside (`X-D`): the table's answer for the text exactly as typed is fixed before the code runs
+    shapes += base_shapes([("", "")], [3], conv_table, **dict(kw, inner_marks=True, emoji_names=False, dict_max=0, preconsult_emoji=True, fixed={"smart_quote": False, "include_english": False}))
     check.bounds["assembly_emoji"] = dict(word="1%s symbolic letters/digits" % ("-2" if thorough else ""), wrappers=[s["pre"] + "W" + s["trail"] for s in shapes][:12],
                                           data="emoticon for the whole text present or absent; emoji name with 2 distinct emoji present or absent; 0-1 dictionary word",
                                           options="English, ANSI, smart quotes symbolic")
@@ -3049,6 +3186,14 @@ def obl_regex_hygiene(check, max_n, budget_s=None):
         check.obligation("regex_hygiene", "mirsym", "inconclusive", "executor gave up: " + "; ".join(sorted(set(errors))[:3]))
         return
     if "cover:pattern_built" not in covers:
+        try:
+            src = open(os.path.join(REPO, "src", "fixed", "search.rs")).read()
+        except OSError:
+            src = "Regex::new"
+        if "Regex" not in src and not vio:
+            # the search of the tree under check compiles no pattern at all: nothing the clauses speak about exists
+            check.obligation("regex_hygiene", "mirsym", "held", "%d paths; the fixed search builds no regular expression" % summ["paths"])
+            return
         check.obligation("regex_hygiene", "mirsym", "inconclusive", "vacuity: no pattern was built")
         return
     if not vio:
